@@ -156,6 +156,10 @@ class Program:
                 tree = ast.parse(text, filename=str(p))
             except SyntaxError as exc:
                 raise AnalysisError(f"cannot parse {p}: {exc}") from exc
+            # behaviour-preserving renames of locals are undone before any rule looks at the code
+            from .canon import canonicalise_module
+
+            self.canonicalised = getattr(self, "canonicalised", 0) + canonicalise_module(p.stem, tree)
             self.mods[p.stem] = Module(p.stem, p, text, tree)
         self.digest = digest.hexdigest()
         for m in self.mods.values():
